@@ -406,7 +406,7 @@ def call_lua_sandbox(
             "#invoke {} with too few arguments".format(invoke_args),
             sortid="luaexec/369",
         )
-        return "{{" + invoke_args[0] + ":" + "|".join(invoke_args[1:]) + "}}"
+        return "{{#invoke:" + "|".join(invoke_args) + "}}"
 
     # Initialize the Lua sandbox if not already initialized
     if len(ctx.lua_env_stack) == 0:
